@@ -198,17 +198,17 @@ class Attack:
                     if fixed:
                         frozen.update(bools)
             if not fixed:
-                # (2) latest-allocated unknown, if the constraint is linear in it
-                u = unknowns[0]   # most negative index = latest allocated
-                fixed = self._solve_linear(bad, u, a)
-                if fixed:
-                    frozen.add(u)
-                elif len(unknowns) > 1:
-                    for u in unknowns[1:]:
-                        if self._solve_linear(bad, u, a):
-                            frozen.add(u)
-                            fixed = True
-                            break
+                # (2) latest-allocated unknown first, if the constraint is linear in it; a wire that carries a
+                # booleanity constraint is only given a 0/1 value (anything else could not satisfy the system)
+                for u in unknowns:
+                    saved = a[u]
+                    if self._solve_linear(bad, u, a):
+                        if u in t.boolean and a[u] not in (0, 1):
+                            a[u] = saved
+                            continue
+                        frozen.add(u)
+                        fixed = True
+                        break
             if not fixed:
                 return False
             self.repairs += 1
